@@ -405,6 +405,14 @@ def execute(case, sv):
     produced_at_return, pulled_at_return = meter.produced, meter.pulled
     meter.returned = True
     idle = tramp.idle()
+    if status == "returned" and idle:
+        # anything the run left queued on the current-thread trampoline would run with the next subscribe(): flush it
+        try:
+            import reactivex
+
+            reactivex.empty().subscribe()
+        except BudgetExceeded:
+            pass
     return {
         "status": status, "outs": outs, "expected": expected, "needed": needed, "produced": produced_at_return,
         "pulled": pulled_at_return, "after": meter.after, "idle": idle, "pre_idle": pre_idle, "instances": built[0],
